@@ -214,5 +214,5 @@ func (cms *CountMinSketch) ReadFrom(stream io.Reader) (int64, error) {
 			cms.matrix[r][c] = row[c]
 		}
 	}
-	return int64(2*binary.Size(uint64(0)) + int(cms.rows)*binary.Size(row)), nil
+	return int64(3*binary.Size(uint64(0)) + int(cms.rows)*binary.Size(row)), nil
 }
